@@ -267,15 +267,16 @@ def r3(ctx: Ctx):
              f'the row index is advanced {len(all_incs)} time(s) in the row loop'
              f' ({len(incs)} at row level): a row that fans out to several'
              ' slice values (or to none) shifts every later mask', node=rl)
-  norm_new = any(isinstance(s, ast.If) and 'isinstance(slice_value, tuple)' in unparse(s.test)
-                 and any('(slice_value,)' in unparse(b) for b in s.body) for s in ast.walk(fn.node))
+  from mlmverif import pat
+  NORM = 'if not isinstance($sv, tuple):\n  $sv = ($sv,)'
+  norm_new = pat.has(fn.node, NORM, nested=True)
   ias = repo.func(TF, 'Slicer.iterate_and_slice')
-  norm_it = any(isinstance(s, ast.If) and 'isinstance(slice_value, tuple)' in unparse(s.test)
-                and any('(slice_value,)' in unparse(b) for b in s.body) for s in ast.walk(ias.node))
+  norm = pat.search(ias.node, NORM, nested=True)
+  norm_it = bool(norm)
   y = [x for x in ast.walk(ias.node) if isinstance(x, ast.Yield)]
-  wrap = y and 'SliceKey(self.slice_name, slice_value)' in unparse(y[0].value)
+  wrap = bool(y) and norm_it and pat.match(f'SliceKey(self.slice_name, {norm[0][1]["sv"]}), $m', y[0].value) is not None
   call = [c for c in ast.walk(ias.node) if isinstance(c, ast.Call) and unparse(c.func) == 'self.slice_mask_fn']
-  sel = 'key_paths=self.input_keys' in unparse(ias.node)
+  sel = any(isinstance(c, ast.Call) and unparse(kwarg(c, 'key_paths')) == 'self.input_keys' for c in ast.walk(ias.node))
   if norm_new and norm_it and wrap and call and sel:
     ctx.ok(rule, ias, 'slice values normalised to tuples; SliceKey(slice_name, value); inputs selected by input_keys', ias.node)
   else:
@@ -286,7 +287,8 @@ def r3(ctx: Ctx):
   for s in ast.walk(new.node):
     if isinstance(s, ast.FunctionDef) and s.name == '_default_slice_fn':
       dflt = s
-  if dflt is not None and 'return (args,)' in unparse(dflt) and 'if arg in within_value' in unparse(dflt):
+  if dflt is not None and pat.has(dflt, 'return (args,)') and pat.has(
+      dflt, '($a for $a, $w in zip(args, $wv, strict=True) if $a in $w)'):
     ctx.ok(rule, new, 'default slice fn: the row itself, or the values within the allowed sets', dflt)
   else:
     ctx.fail(rule, new, 'Slicer.new._default_slice_fn', 'the default slice function changed', node=new.node)
@@ -302,8 +304,10 @@ def r4(ctx: Ctx):
            ' every state entry under its own (metric, slice) key')
   repo = ctx.repo
   gi = repo.func(TF, 'TreeFn._get_inputs')
-  t = unparse(gi.node)
-  if 'if self.masks' in t and 'self._apply_masks(fn_inputs)' in t and '[self.input_keys]' in t:
+  from mlmverif import pat
+  sel_ = pat.search(gi.node, '$f = $$v[self.input_keys]')
+  if sel_ and pat.has(gi.node, f'if self.masks:\n  {sel_[0][1]["f"]} = self._apply_masks({sel_[0][1]["f"]})') and any(
+      isinstance(r_, ast.Return) and unparse(r_.value) == sel_[0][1]['f'] for r_ in walk_no_nested(gi.node)):
     ctx.ok(rule, gi, '_get_inputs selects by input_keys then applies masks', gi.node)
   else:
     ctx.fail(rule, gi, '_get_inputs: select input_keys, then self._apply_masks(fn_inputs) when masks are set',
@@ -313,7 +317,8 @@ def r4(ctx: Ctx):
   one = 'case (mask,)' in t or 'case [mask]' in t
   many = 'zip(items, self.masks, strict=True)' in t
   rep = 'replace_false_with=self.replace_mask_false_with' in t
-  if one and many and rep and 'return tuple(result)' in t:
+  acc = pat.search(am.node, '$r = []')
+  if one and many and rep and acc and pat.has(am.node, f'return tuple({acc[0][1]["r"]})'):
     ctx.ok(rule, am, '_apply_masks: one mask for all inputs or strict zip; replace value forwarded', am.node)
   else:
     ctx.fail(rule, am, '_apply_masks: (mask,) -> every item; several -> zip(items, masks, strict=True)',
@@ -336,8 +341,10 @@ def r4(ctx: Ctx):
   if eff.mutations(ap, {'items': DIRECT}):
     ctx.fail(rule, ap, 'apply_mask leaves items untouched', 'apply_mask mutates the batch it masks', node=ap.node)
   ta = repo.func(TF, 'TreeAggregateFn.update_state')
-  t = unparse(ta.node)
-  if 'self._get_inputs(inputs)' in t and 'self._actual_fn.update_state(state, *fn_inputs, **kw_inputs)' in t:
+  ps_ = ta.params()
+  got_in = pat.search(ta.node, f'$f, $k = (self._get_inputs({ps_[2]}), {{}})') or pat.search(
+      ta.node, f'$f = self._get_inputs({ps_[2]})')
+  if got_in and pat.has(ta.node, f'{ps_[1]} = self._actual_fn.update_state({ps_[1]}, *{got_in[0][1]["f"]}, **$kw)'):
     ctx.ok(rule, ta, 'aggregate sees the (masked) selected inputs', ta.node)
   else:
     ctx.fail(rule, ta, 'TreeAggregateFn.update_state: _actual_fn.update_state(state, *self._get_inputs(inputs))',
@@ -348,11 +355,15 @@ def r4(ctx: Ctx):
   if len(loops) == 1:
     l = loops[0]
     skip = any(isinstance(x, (ast.Continue, ast.Break)) for x in ast.walk(l))
-    t = unparse(l)
-    ok = (not skip and 'self.agg_fns[key.metrics].get_result(fn_state)' in t
-          and 'MetricKey(metric, key.slice) for metric in key.metrics' in t
-          and 'tree.TreeMapView(outputs)[key.metrics]' in t
-          and 'result.copy_and_set(flattened_keys, outputs)' in t)
+    kv, sv_ = (unparse(x) for x in l.target.elts) if isinstance(l.target, ast.Tuple) else ('', '')
+    o1 = pat.search(l, f'$o = self.agg_fns[{kv}.metrics].get_result({sv_})', nested=True)
+    ov = o1[0][1]['o'] if o1 else '_'
+    fl = pat.search(l, f'$fk = tuple((MetricKey($m, {kv}.slice) for $m in {kv}.metrics))', nested=True)
+    fkv = fl[0][1]['fk'] if fl else '_'
+    ok = (not skip and bool(o1) and bool(fl)
+          and pat.has(l, f'{ov} = tree.TreeMapView({ov})[{kv}.metrics]', nested=True)
+          and pat.has(l, f'$r = $r.copy_and_set({fkv}, {ov})', nested=True)
+          and pat.has(l, f'{fkv} = {kv}.metrics', nested=True))
   if ok:
     ctx.ok(rule, gr, 'get_result: one entry per state key, sliced keys as MetricKey(metric, slice)', gr.node)
   else:
